@@ -223,6 +223,10 @@ DoneFailures(os, done, i, e) ==
            \* C08: after flush returns, everything accepted is available without the producer
            \/ id = "C08" /\ ~e.gz /\ isF /\ d.res = "ok" /\ last /\ os.calive /\ e.snap.st = "ok"
                  /\ ~(acc2 = os.del + e.snap.rb /\ d.buf = 0)
+           \* C08 / C09: a write or flush never fails while the body is alive and nothing was aborted (the
+           \* writer would be dead from then on: the body could not be what the property promises)
+           \/ id = "C08" /\ ~e.gz /\ (isW \/ isF) /\ d.res = "err" /\ live /\ ~d.sdrop
+           \/ id = "C09" /\ e.gz /\ (isW \/ isF) /\ d.res = "err" /\ live /\ ~d.sdrop
            \* C11: after abort, and after a first error, every later write/flush fails
            \/ id = "C11" /\ (os.aborted \/ os.wfailed) /\ (isW \/ isF) /\ d.res # "err"
            \* C11: once the body is gone, flush of unflushed bytes and chunk-completing writes fail
